@@ -19,7 +19,6 @@ TConstruct == /\ l <= Len(Traces[tid].events) /\ l' = l + 1 /\ UNCHANGED tid
               /\ Construct(ToCall(Ev))
               /\ \/ out' = Ev.outcome
                  \/ Ev.dev \in Deviations        \* as-built: an open known finding explains the outcome
-              /\ (Ev.dev \in Deviations \/ OnlyRotations')    \* invariant as a guard
 TraceSpec == TraceInit /\ [][TConstruct]_tvars
 Progress == LET f == TLCGet(1) IN IF f[tid] < l THEN TLCSet(1, [f EXCEPT ![tid] = l]) ELSE TRUE
 Accepted == LET f == TLCGet(1) IN
